@@ -175,4 +175,7 @@ def run(ctx):
     rule_versions(ctx)
     rule_cache(ctx)
     rule_first_wins(ctx)
+    import c03
+
+    ctx.include("C17.6", "no finding is dropped by a de-duplication whose outcome depends on the order in which definitions, passes or files were processed: the runner and the writers never narrow a report collection (shared with C03.1)", c03.rule_drain, only=["no-narrowing", "appends-everything"])
     ctx.include("C17.5", "a file that fails to parse does not stop the remaining files from being read (otherwise findings depend on the order of the command line)", c19.rule_user_inputs, only=["parse_files/"])
